@@ -6,6 +6,21 @@ caching on and with the public cache=False / cache_expression=False switch - and
 outcomes are compared (returns-vs-raises, path equality for deterministic optimizers, value
 equality); every value is also compared with the dense reference.  Cached expressions are
 re-applied to NEW arrays of the same shapes.
+
+Expressions with constants (pool members tagged const:*): members that differ ONLY in which operands are
+constant (one, another one, two, ALL - the expression is then called without arguments -, or the empty set), or
+only in the VALUES of the constant arrays in the same positions (the arrays are re-created for every
+call: equal values never mean the same object, and a new object may well reuse the address of a freed one), next
+to the constant-free base and optionally under one shared option (via / prefer_einsum / implementation).  They are
+issued through array_contract_expression(constants={position: array}) and einsum_expression(constants=[...]) with
+caching on and off; both values are compared with each other and with the dense reference over the FULL operand
+list (constants in their positions), and the expression obtained again with caching on is applied to NEW variable
+arrays (monitors constants_cached_vs_uncached, constants_value_vs_E1, constants_reused_new_arrays).
+
+User-registered presets (members preset:left / preset:right): two presets registered once per process with
+register_preset, each naming a deterministic path function of the number of operands; the members differ only in
+the optimize string.  Besides the comparisons above, a path obtained under a preset name - cached or not - must
+have the intermediates of the path its function returns (monitor preset_path_model).
 """
 
 import traceback
@@ -22,10 +37,11 @@ from ..common import Deadline, budget, rng_for
 PID = "C13"
 LEVEL = "exploration"
 RULE = (
-    "per case a pool of 3-7 contractions derived from one base network (3-6 tensors) by changing ONE cache-key "
+    "per case a pool of 3-12 contractions derived from one base network (3-6 tensors) by changing ONE cache-key "
     "component (output order, one size, optimize value incl. explicit path as tuple/list/list-of-lists/edge path, "
     "strip_exponent, implementation, prefer_einsum, sort_contraction_indices, relabelling, canonicalize=False with "
-    "hash-colliding labels, sizes d vs d+2**61-1); a history of 10-40 calls over array_contract_path / "
+    "hash-colliding labels, sizes d vs d+2**61-1, WHICH operands are constant (one, another one, two, ALL, none [empty set]) "
+    "and the VALUES of the constant arrays in the same positions, the NAME of a user-registered preset); a history of 10-40 calls over array_contract_path / "
     "array_contract_expression / einsum_expression / array_contract / einsum in random order, each call made "
     "cached and uncached; distinct = distinct (pool, call sequence); non-trivial = some ordered pair (A then B) of "
     "different pool members hit the same API"
@@ -33,8 +49,16 @@ RULE = (
 ASSUMPTIONS = [
     "deterministic optimizers only (greedy, optimal, explicit paths) so that path equality is meaningful",
     "module-level lru caches stay warm in both modes (they are part of what is observed; the value oracle covers them)",
+    "constants: one, two or ALL of the 3-6 operands are constant (all: the expression takes no arguments, so 'new arrays' "
+    "means the same constants as new objects); strip_exponent and user supplied implementations are not combined with "
+    "constants (not part of / not usable with that signature)",
+    "the two preset functions are the harness's own (fixed path families depending on the number of operands only), "
+    "registered once per process and never re-registered",
 ]
-REQUIRED_MONITORS = ["custom_impl_observed", "cached_vs_uncached", "value_vs_E1", "path_equal", "expr_reused_new_arrays", "collision_pool", "near_pairs"]
+REQUIRED_MONITORS = [
+    "custom_impl_observed", "cached_vs_uncached", "value_vs_E1", "path_equal", "expr_reused_new_arrays", "collision_pool", "near_pairs",
+    "constants_cached_vs_uncached", "constants_value_vs_E1", "constants_reused_new_arrays", "constants_near_pairs", "preset_path_model", "constants_all_operands",
+]
 SHARD_TIMEOUT = {"quick": 400, "thorough": 3600}
 
 
@@ -77,6 +101,41 @@ def classify(v):
     return None
 
 
+# two user-registered presets: name -> the family of linear paths its function always returns
+PRESETS = {"vf13-left": "left", "vf13-right": "right"}
+PRESET_CALLS = {}
+_PRESETS_DONE = []
+
+
+def model_path(shape, n):
+    if shape == "left":  # always the two oldest tensors
+        return tuple((0, 1) for _ in range(n - 1))
+    return tuple((n - 2 - k, n - 1 - k) for k in range(n - 1))  # right: always the two newest
+
+
+def ensure_presets():
+    if _PRESETS_DONE:
+        return
+
+    def path_fn(shape, name):
+        def fn(inputs, output, size_dict, memory_limit=None, **kw):
+            PRESET_CALLS[name] = PRESET_CALLS.get(name, 0) + 1
+            return model_path(shape, len(inputs))
+
+        return fn
+
+    def tree_fn(shape, name):
+        def fn(inputs, output, size_dict, **kw):
+            PRESET_CALLS[name] = PRESET_CALLS.get(name, 0) + 1
+            return ctg.ContractionTree.from_path(inputs, output, size_dict, path=model_path(shape, len(inputs)))
+
+        return fn
+
+    ctg.register_preset("vf13-left", path_fn("left", "vf13-left"))
+    ctg.register_preset("vf13-right", path_fn("right", "vf13-right"), optimizer_tree=tree_fn("right", "vf13-right"))
+    _PRESETS_DONE.append(True)
+
+
 def clear_caches():
     _iface._PATH_CACHE.clear()
     _iface._CONTRACT_EXPR_CACHE.clear()
@@ -100,9 +159,10 @@ def make_pool(rng, tier):
 
     members.append(member(base))
     inds = [ix for ix in base.size_dict if any(ix in t for t in base.inputs)]
-    choices = ["output_order", "size", "optimize", "strip", "impl", "prefer_einsum", "sort", "relabel", "explicit", "via", "impl_custom", "via", "impl_custom"]
+    choices = ["output_order", "size", "optimize", "strip", "impl", "prefer_einsum", "sort", "relabel", "explicit", "via", "impl_custom", "via", "impl_custom",
+               "constants", "constants", "preset", "preset"]
     rng.shuffle(choices)
-    for what in choices[: rng.randint(2, 6)]:
+    for what in choices[: rng.randint(3, 7)]:
         if what == "output_order" and len(base.output) >= 2:
             out = list(base.output)
             while tuple(out) == base.output:
@@ -127,6 +187,19 @@ def make_pool(rng, tier):
             members.append(member(base, kwargs={"implementation": "CUSTOM"}, tag=what))
         elif what == "sort":
             members.append(member(base, kwargs={"sort_contraction_indices": True}, tag=what))
+        elif what == "constants" and not any(m["tag"].startswith("const:") for m in members):
+            # members differing ONLY in the set of constant operands / in the constant arrays' values; also ALL
+            # operands constant (the expression is then called without arguments; FINDINGS_widen-c.md F1, repaired)
+            p, q = rng.sample(range(n), 2)
+            kw = rng.choice([{}, {}, {"via": "VIA"}, {"prefer_einsum": True}, {"implementation": rng.choice(["cotengra", "autoray"])}])
+            variants = [("pos-a/values-1", [p], 1), ("pos-b/values-1", [q], 1), ("pos-a/values-2", [p], 2), ("pos-ab/values-1", sorted([p, q]), 1), ("empty", [], 1),
+                        ("all/values-1", list(range(n)), 1), ("all/values-2", list(range(n)), 2)]
+            keep = [variants[0]] + rng.sample(variants[1:], rng.randint(1, 3))
+            for name, consts, cseed in keep:
+                members.append(member(base, kwargs=dict(kw), tag="const:" + name, constants=consts, const_seed=cseed))
+        elif what == "preset" and not any(m["tag"].startswith("preset:") for m in members):
+            members.append(member(base, optimize="vf13-left", tag="preset:left"))
+            members.append(member(base, optimize="vf13-right", tag="preset:right"))
         elif what == "relabel":
             syms = [gen.symbol(40 - k) for k in range(len(base.size_dict))]
             ren = dict(zip(base.size_dict, syms))
@@ -216,6 +289,32 @@ def thaw_optimize(m):
     return opt
 
 
+def split_constants(m, arrays):
+    """-> (constants {position: array} or None, the variable arrays) for the FULL operand list ``arrays``"""
+    if m.get("constants") is None or arrays is None:
+        return None, arrays
+    pos = [int(i) for i in m["constants"]]
+    return {i: arrays[i] for i in pos}, [a for i, a in enumerate(arrays) if i not in pos]
+
+
+def build_expr(m, api, cache, arrays):
+    """the expression of member ``m`` through ``api`` (expr | einsum_expr); constants taken from ``arrays``"""
+    net = gen.Net.from_json(m["net"])
+    opt = thaw_optimize(m)
+    kw = resolve_kwargs(m["kwargs"])
+    consts, _ = split_constants(m, arrays)
+    if api == "expr":
+        if consts is not None:
+            kw["constants"] = consts
+        return ctg.array_contract_expression(net.inputs, net.output, net.size_dict, optimize=opt, cache=cache, **kw)
+    shapes = list(net.shapes())
+    if consts is not None:
+        for i, a in consts.items():
+            shapes[i] = a
+        kw["constants"] = sorted(consts)
+    return ctg.einsum_expression(net.eq(), *shapes, optimize=opt, cache=cache, **kw)
+
+
 def one_call(m, api, cache, arrays):
     """-> ("ok", value) | ("raise", ExceptionTypeName, message)"""
     opt = thaw_optimize(m)
@@ -232,12 +331,9 @@ def one_call(m, api, cache, arrays):
         if api == "path":
             p = ctg.array_contract_path(net.inputs, net.output, net.size_dict, optimize=opt, cache=cache)
             return ("ok", freeze(p))
-        if api == "expr":
-            e = ctg.array_contract_expression(net.inputs, net.output, net.size_dict, optimize=opt, cache=cache, **kw)
-            return ("ok", e(*arrays))
-        if api == "einsum_expr":
-            e = ctg.einsum_expression(net.eq(), *net.shapes(), optimize=opt, cache=cache, **kw)
-            return ("ok", e(*arrays))
+        if api in ("expr", "einsum_expr"):
+            e = build_expr(m, api, cache, arrays)
+            return ("ok", e(*split_constants(m, arrays)[1]))
         if api == "array_contract":
             return ("ok", ctg.array_contract(arrays, net.inputs, net.output, optimize=opt, cache_expression=cache, **kw))
         if api == "einsum":
@@ -257,6 +353,7 @@ def value_of(res, m):
 
 def run_history(rep, case):
     warnings.filterwarnings("ignore")
+    ensure_presets()
     clear_caches()
     pool = case["pool"]
     last_api_member = {}
@@ -269,9 +366,23 @@ def run_history(rep, case):
         else:
             net = gen.Net.from_json(m["net"])
             arrays = net.arrays(rng_for(case["case_seed"], "arr", arr_seed), "float")
+        has_const = m.get("constants") is not None
+        if has_const:
+            # constants only exist for expressions: the eager calls of such a member become expression calls;
+            # the constant arrays depend on the member (const_seed) only and are re-created for every call
+            api = {"array_contract": "expr", "einsum": "einsum_expr"}.get(api, api)
+            carr = net.arrays(rng_for(case["case_seed"], "const", m["const_seed"]), "float")
+            arrays = [carr[i] if i in m["constants"] else a for i, a in enumerate(arrays)]
+
+        def K(kind, flag=has_const and api != "path"):
+            # failures observed on an expression with constants carry their own kind
+            return ("constants_" + kind) if flag else kind
+
         prev = last_api_member.get(api)
         if prev is not None and prev != mi:
             rep.mon("near_pairs")
+            if api != "path" and (has_const or pool[prev].get("constants") is not None):
+                rep.mon("constants_near_pairs")
             rep.seen("ordered_pairs", (pool[prev]["tag"], m["tag"], api))
         last_api_member[api] = mi
         first = case["order"][step % len(case["order"])]
@@ -290,19 +401,36 @@ def run_history(rep, case):
                 if not wants_custom and used_custom[cache] != 0:
                     return ("option_leaked", step, f"step {step}: {api} on member {mi} ({m['tag']}) cache={cache}: another call's implementation was used")
         rep.mon("cached_vs_uncached")
+        if has_const and api != "path":
+            rep.mon("constants_cached_vs_uncached")
+            if len(m["constants"]) == net.N:
+                rep.mon("constants_all_operands")
+            rep.count("constants_members", f"{api} | {m['tag']} | {sorted(m['kwargs'])}")
         rep.count("api", api)
         c, u = res[True], res[False]
         where = f"step {step}: {api} on pool member {mi} ({m['tag']})"
         if c[0] != u[0]:
             bad = c if c[0] == "raise" else u
-            return ("raises_differ", step, f"{where}: cache=True -> {c[0]}, cache=False -> {u[0]} ({bad[1]}: {bad[2][:300]})")
+            return (K("raises_differ"), step, f"{where}: cache=True -> {c[0]}, cache=False -> {u[0]} ({bad[1]}: {bad[2][:300]})")
         if c[0] == "raise":
             # every pool member is a valid contraction with a valid optimize argument: the reference has
             # a value, so a call that raises in BOTH modes is a wrong answer too (e.g. a dispatch decision
             # memoised by an earlier, different call)
             rep.count("both_raise", f"{api}:{c[1]}")
-            return ("raises", step, f"{where}: raises with and without caching ({c[1]}: {c[2][:300]}); calls before: {[(pool[a]['tag'], b) for a, b, _ in case['calls'][:step]][-6:]}")
+            return (K("raises"), step, f"{where}: raises with and without caching ({c[1]}: {c[2][:300]}); calls before: {[(pool[a]['tag'], b) for a, b, _ in case['calls'][:step]][-6:]}")
         if api == "path":
+            if m["tag"].startswith("preset:"):
+                # a registered preset behaves like the function registered under its name, cached or not
+                model = set(ref.path_to_nodes(net.N, model_path(PRESETS[m["optimize"]], net.N)))
+                for label, r in (("cached", c), ("uncached", u)):
+                    rep.mon("preset_path_model")
+                    try:
+                        nodes = set(ref.path_to_nodes(net.N, [tuple(int(i) for i in p) for p in r[1]]))
+                    except Exception as e:
+                        return ("path_invalid", step, f"{where}: {label} path {r[1]!r}: {e!r}")
+                    if nodes != model:
+                        return ("preset_path_model", step, f"{where}: {label} path {r[1]} does not have the intermediates of {model_path(PRESETS[m['optimize']], net.N)}, "
+                                f"the path the function registered as {m['optimize']!r} returns; calls before: {[(pool[a]['tag'], b) for a, b, _ in case['calls'][:step]][-6:]}")
             rep.mon("path_equal")
             if c[1] != u[1]:
                 return ("path_differs", step, f"{where}: cached path {c[1]} != uncached path {u[1]}")
@@ -324,31 +452,36 @@ def run_history(rep, case):
             try:
                 got = value_of(r, m)
             except Exception as e:
-                return ("value", step, f"{where}: {label} result has unexpected form: {e!r}")
+                return (K("value"), step, f"{where}: {label} result has unexpected form: {e!r}")
             rep.mon("value_vs_E1")
+            if has_const:
+                rep.mon("constants_value_vs_E1")
             msg = ref.compare(got, want, bound, nsum, net.N)
             if msg:
-                return ("value", step, f"{where}: {label} result: {msg}")
+                return (K("value"), step, f"{where}: {label} result: {msg}" + (f" (constants at {m['constants']})" if has_const else ""))
         # a cached expression re-applied to NEW arrays of the same shapes
         if api in ("expr", "einsum_expr"):
             try:
-                if api == "expr":
-                    e = ctg.array_contract_expression(net.inputs, net.output, net.size_dict, optimize=thaw_optimize(m), cache=True, **resolve_kwargs(m["kwargs"]))
-                else:
-                    e = ctg.einsum_expression(net.eq(), *net.shapes(), optimize=thaw_optimize(m), cache=True, **resolve_kwargs(m["kwargs"]))
                 arrays2 = net.arrays(rng_for(case["case_seed"], "arr2", step), "float")
-                got = value_of(("ok", e(*arrays2)), m)
+                if has_const:
+                    # same constants (same values, new objects), new variable arrays
+                    carr = net.arrays(rng_for(case["case_seed"], "const", m["const_seed"]), "float")
+                    arrays2 = [carr[i] if i in m["constants"] else a for i, a in enumerate(arrays2)]
+                e = build_expr(m, api, True, arrays2)
+                got = value_of(("ok", e(*split_constants(m, arrays2)[1])), m)
             except Exception as e2:
-                return ("raises", step, f"{where}: reusing the cached expression raised {type(e2).__name__}: {e2}")
+                return (K("raises"), step, f"{where}: reusing the cached expression raised {type(e2).__name__}: {e2}")
             if m["kwargs"].get("via") == "VIA":
                 w2, b2, n2 = ref.dense_einsum(net.inputs, net.output, [VIA_IN(a) for a in arrays2], with_bound=True)
                 w2, b2 = VIA_OUT(w2), VIA_OUT(b2)
             else:
                 w2, b2, n2 = ref.dense_einsum(net.inputs, net.output, arrays2, with_bound=True)
             rep.mon("expr_reused_new_arrays")
+            if has_const:
+                rep.mon("constants_reused_new_arrays")
             msg = ref.compare(got, w2, b2, n2, net.N)
             if msg:
-                return ("value", step, f"{where}: cached expression on new arrays: {msg}")
+                return (K("value"), step, f"{where}: cached expression on new arrays: {msg}")
     return None
 
 
@@ -369,7 +502,7 @@ def gen_case(rng, cs, tier):
 
 def run_shard(rep, tier, seed, shard, nshards):
     dl = Deadline(budget(tier, 45, 500))
-    for k in range(budget(tier, 150, 4000)):
+    for k in range(budget(tier, 600, 4000)):
         if dl.expired():
             break
         cs = f"{seed}/C13/{shard}/{k}"
